@@ -24,11 +24,6 @@ func NewMemoryHeightIterator(dataset map[string]string, start string, end string
 			return &MemoryHeightIterator{endIdx: -1, startIdx: 1}
 		}
 	}
-	if start > end {
-		tmp := start
-		start = end
-		end = tmp
-	}
 	if len(sortedKeys) == 0 {
 		sortedKeys = make([]string, 0, len(dataset))
 		for k, _ := range dataset {
@@ -47,7 +42,7 @@ func NewMemoryHeightIterator(dataset map[string]string, start string, end string
 	endIdx := len(sortedKeys) - 1
 	if end != "" {
 		for ; endIdx > 0 && endIdx > startIdx; endIdx-- {
-			if sortedKeys[endIdx] <= end {
+			if sortedKeys[endIdx] < end {
 				break
 			}
 		}
@@ -80,6 +75,12 @@ func (m *MemoryHeightIterator) Domain() (start []byte, end []byte) {
 func (m *MemoryHeightIterator) Valid() bool {
 	if m.endIdx < m.startIdx || m.curIdx > m.endIdx {
 		return false
+	}
+	if m.sortedKeys == nil || m.dataset == nil {
+		return false // we closed!!
+	}
+	if m.curIdx < 0 || m.curIdx > len(m.sortedKeys)-1 {
+		return false // out of range!
 	}
 	if (m.end != "" && m.sortedKeys[m.curIdx] >= m.end) || (m.start != "" && m.sortedKeys[m.curIdx] < m.start) {
 		return false
